@@ -98,6 +98,8 @@ def parent_code(parent):
 
     if isinstance(parent, Index):
         return "I"
+    if not isinstance(parent, Projection):
+        return "O"  # any other class: the rules are guarded by isinstance(parent, Projection)
     op = parent.operand("columns")
     if isinstance(op, list):
         return ("L:" if parent.frame.ndim == 2 else "T:") + rc(op)
@@ -176,6 +178,7 @@ class Inst:
     io: bool = False
     concat: bool = False
     guard: object = None  # (parent, dependents) -> extra params (Filter: blocked)
+    other_parents: list = field(default_factory=list)  # parents of other classes (no rule may fire)
 
 
 def _render_generic(inst: Inst, parent, res):
@@ -247,7 +250,7 @@ def _same(a, b):
 
 def run_rule_family(ctx, name, insts, maxlen=3, cap_parents=None, index_parent=False, note=""):
     """T2: call the real _simplify_up on every (instance, parent, dependents shape) and compare with the model"""
-    from dask_expr._expr import Index, Projection
+    from dask_expr._expr import AddPrefix, Index, Projection
 
     f = Family(name)
     reqs, code, inputs, nontriv = [], [], [], []
@@ -264,6 +267,13 @@ def run_rule_family(ctx, name, insts, maxlen=3, cap_parents=None, index_parent=F
                 continue
         if index_parent:
             parents.append(Index(inst.expr))
+        n_proj = len(parents)
+        if inst.expr.ndim == 2 and not index_parent:
+            try:
+                parents.append(AddPrefix(inst.expr, "zz_"))  # a parent whose labels are no columns of the operator
+            except Exception:  # noqa: BLE001
+                pass
+        parents += list(inst.other_parents)
         for i, parent in enumerate(parents):
             try:
                 parent._meta  # a selection pandas itself rejects is not a valid parent
@@ -271,6 +281,8 @@ def run_rule_family(ctx, name, insts, maxlen=3, cap_parents=None, index_parent=F
                 continue
             _KEEP.append(parent)
             for tag, cons, dead in dep_shapes(inst.expr, parent, inst.out, i):
+                if i >= n_proj and tag not in ("single", "stale_empty", "shared_scalar", "shared_rename"):
+                    continue
                 deps = mk_dependents(inst.expr, cons, dead)
                 extra = inst.guard(parent, deps) if inst.guard else ""
                 try:
@@ -447,6 +459,7 @@ def fam_rename(ctx):
             {"zz": "Z"},  # not a column
             {cols[0]: "A", "zz": cols[0]},  # a label that is not a column maps onto an existing name (D21)
             {"zz": cols[1], cols[1]: "B"},
+            {"zz": cols[2]},  # a label that is not a column maps onto an existing, unrenamed column (D21)
             {cols[0]: "A", cols[1]: "B", cols[2]: "C"},
             {cols[2]: cols[2]},
         ]
@@ -557,7 +570,11 @@ def fam_dropna(ctx):
         df = base(cols)
         for sub in (None, [cols[0]], [cols[2], cols[1]], [cols[-1]]):
             e = DropnaFrame(df.expr, subset=sub)
-            insts.append(Inst("dropna", e, [e.frame], f"frame={rc(cols)} subset={'*' if sub is None else rc(sub)}", list(cols), tag=str(sub)))
+            import dask_expr as dx
+
+            others = [dx.new_collection(e).groupby(cols[1]).sum().expr, dx.new_collection(e).fillna(0).expr]  # D17
+            insts.append(Inst("dropna", e, [e.frame], f"frame={rc(cols)} subset={'*' if sub is None else rc(sub)}", list(cols), tag=str(sub),
+                              other_parents=others))
     return run_rule_family(ctx, "DropnaFrame._simplify_up", insts, cap_parents=60 if ctx.quick else None)
 
 
@@ -866,9 +883,67 @@ def fam_down(ctx):
     return f
 
 
+def fam_category_conformance(ctx):
+    """T4: the hand-assigned category of the classes that reach plain_column_projection (harness/extractors_cols.py):
+    columnLocal  <=>  op(F)[sel] == op(F[sel + keys])[sel]  on the real implementation (unoptimised lowering)"""
+    from harness.extractors_cols import PLAIN_CATEGORIES
+
+    f = Family("category_conformance[classes reaching plain_column_projection]")
+    _, dd = _envs(False)
+    base_cols = ["a", "b", "k", "ab"]
+    D = dd["L"][base_cols]
+    S = dd["L"].assign(b=dd["L"].b.astype("str"))[["a", "b", "k"]]
+    # cummax/cummin are left out: cumulative max/min over a ONE-column frame raises IndexError by itself
+    # (TakeLast squeezes a 1x1 frame to a scalar) — an independent defect, reported, not a column-pruning matter
+    makers = [
+        ("Fillna", D, lambda d: d.fillna(0), []), ("Abs", D, lambda d: d.abs(), []), ("IsNa", D, lambda d: d.isna(), []),
+        ("NotNull", D, lambda d: d.notnull(), []), ("Round", D, lambda d: d.round(1), []),
+        ("Isin", D, lambda d: d.isin([1, 2, 3]), []), ("Replace", D, lambda d: d.replace(1, 5), []),
+        ("Where", D, lambda d: d.where(d > 1, 0), []), ("Mask", D, lambda d: d.mask(d > 3, 0), []),
+        ("Clip", D, lambda d: d.clip(lower=1, upper=4), []), ("Neg", D, lambda d: -d, []), ("Invert", D, lambda d: ~(d > 2), []),
+        ("CumSum", D, lambda d: d.cumsum(), []), ("Diff", D, lambda d: d.diff(1), []),
+        ("Shift", D, lambda d: d.shift(1), []), ("FFill", D, lambda d: d.ffill(), []),
+        ("Repartition", D, lambda d: d.repartition(npartitions=2), []),
+        ("Sum", D, lambda d: d.sum(), []), ("Max", D, lambda d: d.max(), []), ("Count", D, lambda d: d.count(), []),
+        ("Var", D, lambda d: d.var(), []), ("IdxMax", D, lambda d: d.idxmax(), []), ("All", D, lambda d: (d > 0).all(), []),
+        ("NLargest", D, lambda d: d.nlargest(3, "a"), ["a"]), ("ExplodeFrame", D, lambda d: d.explode("b"), ["b"]),
+        ("ResetIndex", D, lambda d: d.reset_index(drop=True), []),
+        ("Filter", D, lambda d: d[dd["L"].a > 2], []),
+        ("Corr", D, lambda d: d.corr(), []), ("Cov", D, lambda d: d.cov(), []), ("Mode", D[["a", "b"]], lambda d: d.mode(), []),
+        ("Categorize", S, lambda d: d.categorize(columns=["b"]), []),
+    ]
+    inputs, code, model = [], [], []
+    for nm, frame, mk, keys in makers:
+        full = mk(frame)
+        if not any(type(x).__name__ == nm for x in full.expr.walk()):
+            code.append(f"class {nm} not constructed")
+            model.append("constructed")
+            inputs.append(nm)
+            continue
+        cols = [c for c in frame.columns]
+        sels = [[cols[1]], [cols[-1], cols[0]], [cols[0]]]
+        local = True
+        for sel in sels[: (2 if ctx.quick else 3)]:
+            need = [c for c in cols if c in sel or c in keys]
+            try:
+                a = _compute(full[sel], False)
+                b = _compute(mk(frame[need])[sel], False)
+                if not e2e.same(a, b):
+                    local = False
+            except Exception:  # noqa: BLE001
+                local = False
+        inputs.append(nm)
+        code.append("columnLocal" if local else "notLocal")
+        model.append("columnLocal" if PLAIN_CATEGORIES.get(nm) == "columnLocal" else "notLocal")
+    f.compare(inputs, code, model)
+    f.note = "real operation on the unoptimised lowering: selecting after the operation vs pruning the input first"
+    return f
+
+
 def families(ctx):
     return [fam_detproj, fam_plain, fam_reduction, fam_filter, fam_assign, fam_rename, fam_affix, fam_binop, fam_astype,
-            fam_dropna, fam_combine_first, fam_opalign, fam_reset_index, fam_io, fam_keyed, fam_rolling, fam_merge, fam_merge_labels, fam_concat, fam_down]
+            fam_dropna, fam_combine_first, fam_opalign, fam_reset_index, fam_io, fam_keyed, fam_rolling, fam_merge, fam_merge_labels, fam_concat, fam_down,
+            fam_category_conformance]
 
 
 # =========================================================================== end-to-end support / failing-input search
@@ -1081,10 +1156,12 @@ def _selections(cols, rng, full):
     sels = [[c] for c in cols] + [c for c in cols]
     pairs = [list(p) for p in itertools.permutations(cols, 2)]
     triples = [list(p) for p in itertools.permutations(cols, 3)]
+    rng.shuffle(triples)
     if not full:
         rng.shuffle(pairs)
-        rng.shuffle(triples)
         pairs, triples = pairs[:3], triples[:1]
+    else:
+        triples = triples[:6]
     return sels + pairs + triples
 
 
@@ -1293,7 +1370,7 @@ def _cases(ctx, broken):
             cases.append({"prog": prog.name, "term": "sel", "sel": sel})
         if isinstance(x, pd.DataFrame) and len(cols) >= 2:
             others = [c for c in cols]
-            for sel in (sels if full else sels[: len(cols)] + sels[-2:]):
+            for sel in (sels[: len(cols)] + sels[2 * len(cols):][:8] + sels[-2:] if full else sels[: len(cols)] + sels[-2:]):
                 if not isinstance(sel, list):
                     continue
                 aux = next((c for c in others if c not in sel), None)
@@ -1334,14 +1411,14 @@ def _cases(ctx, broken):
                 picked.append(c)
         cases = picked
     else:
-        cases += [dict(c, source="from_map") for c in cases if c["term"] in ("sel", "filter_sel")][::3]
+        cases += [dict(c, source="from_map") for c in cases if c["term"] in ("sel", "filter_sel")][::7]
     return CORPUS + cases
 
 
 def support(ctx, broken):
     sup = Support()
     seen = set()
-    budget = 32 if ctx.quick and not broken else (240 if ctx.quick else 3000)
+    budget = 32 if ctx.quick and not broken else (240 if ctx.quick else 600)
     import time
 
     t0 = time.time()
